@@ -35,7 +35,8 @@ if $applies; then
     for tree in /repo $wt; do
       rm -rf $demo; mkdir -p $demo; cp $src/*_test.go $demo/; cp /repo/go.sum $demo/
       printf 'module demo\n\ngo 1.23\n\nrequire github.com/yuin/gopher-lua v0.0.0\n\nreplace github.com/yuin/gopher-lua => %s\n' $tree > $demo/go.mod
-      if ( cd $demo && timeout 300 go test -vet=off -count=1 ./... >/tmp/seeddemo-$name.log 2>&1 ); then r=pass; else r=fail; fi
+      race=""; grep -qs -- "-race" $src/RUN.txt && race="-race"
+      if ( cd $demo && timeout 600 go test $race -vet=off -count=1 ./... >/tmp/seeddemo-$name.log 2>&1 ); then r=pass; else r=fail; fi
       if [ $tree = /repo ]; then demo_clean=$r; else demo_patched=$r; fi
     done
   elif ls $src/*_test.go >/dev/null 2>&1; then
